@@ -45,6 +45,39 @@ def write_baseline(prop):
     return out
 
 
+class _BoundedProc(object):
+    """One bounded suite in its own (non-daemonic) process; .get() waits for the JSON result."""
+
+    def __init__(self, modname, bname, tier, seed):
+        import multiprocessing as mp
+        import tempfile
+        ctx = mp.get_context('fork')
+        fd, self.path = tempfile.mkstemp(suffix='.json', dir=os.environ.get('VERIF_SCRATCH') or None)
+        os.close(fd)
+        self.proc = ctx.Process(target=_bounded_to_file, args=(modname, bname, tier, seed, self.path))
+        self.proc.daemon = False
+        self.proc.start()
+
+    def get(self):
+        self.proc.join()
+        try:
+            with open(self.path) as fp:
+                return json.load(fp)
+        except Exception:
+            return {'__crash__': 'bounded suite process ended without a result (exit code %s)' % self.proc.exitcode}
+        finally:
+            try:
+                os.unlink(self.path)
+            except OSError:
+                pass
+
+
+def _bounded_to_file(modname, bname, tier, seed, path):
+    res = _bounded_worker(modname, bname, tier, seed)
+    with open(path, 'w') as fp:
+        json.dump(res, fp, default=str)
+
+
 def _bounded_worker(modname, bname, tier, seed):
     try:
         t0 = time.time()
@@ -91,8 +124,7 @@ def run_check(prop, tier='quick', seed=0, strict=False, procs=None):
     # bounded stand-ins run concurrently with the deductive part (own process: they use the real database)
     import multiprocessing as _mp
     bjobs = [(modname, b.name) for modname, fam in families for b in fam.bounded if prop in b.serves]
-    bpool = _mp.get_context('fork').Pool(1) if bjobs else None
-    basync = [bpool.apply_async(_bounded_worker, (mn, bn, tier, seed)) for mn, bn in bjobs] if bpool else []
+    basync = [_BoundedProc(mn, bn, tier, seed) for mn, bn in bjobs]     # non-daemonic: suites may fork workers
 
     # ---- 1. deductive part: functions under contract
     jobs = []
